@@ -515,19 +515,36 @@ class MPT:
             return res
         if sink.per_item:
             ok = True
+            any_loop = False
             for c, tr in loop_sites:
-                hdr = loop_body_entry(body, c.bb)
-                if hdr is None:
-                    # not in a loop: plain rule for this site
+                li = loop_info(body, c.bb)
+                if li is None:
                     continue
-                hits = success_reachable(body, removed, success, starts=[hdr], ret_filter=ret_filter)
-                if hits:
+                any_loop = True
+                hdr, nxt = li
+                # success edges of the sites inside this very loop
+                inside = body.reach([hdr], stop={nxt})
+                rem = set()
+                for c2, tr2 in loop_sites:
+                    if c2.bb in inside:
+                        rem |= tr2.success_edges
+                        if tr2.returned and not tr2.success_edges and c2.target is not None:
+                            rem.add((c2.bb, c2.target))
+                r = body.reach([hdr], removed=rem, stop={nxt})
+                if nxt in r:
                     ok = False
-                    res.problems.append('%s: an iteration of the loop around %s (line %d) can reach a '
-                                        'success return (bb%s) without %s=%s' % (
-                                            lf.name, c.best(), c.line, hits, sink.name, sink.want))
-            in_loop = [1 for c, tr in loop_sites if loop_body_entry(body, c.bb) is not None]
-            if in_loop:
+                    res.problems.append('%s: an iteration of the loop around %s (line %d) can complete without %s=%s' % (
+                        lf.name, c.best(), c.line, sink.name, sink.want))
+                    continue
+                hits = success_reachable(body, rem, success, starts=[hdr], ret_filter=ret_filter)
+                # success returns reachable from inside the iteration without passing the check, not through the header
+                succ_pts, _ = return_assigns(body, success)
+                direct = [sp['bb'] for sp in succ_pts if sp['bb'] in r]
+                if direct:
+                    ok = False
+                    res.problems.append('%s: the loop around %s (line %d) can be left towards a success return (bb%s) '
+                                        'without %s=%s' % (lf.name, c.best(), c.line, direct, sink.name, sink.want))
+            if any_loop:
                 res.holds = ok
                 res.detail['mode'] = 'per-item'
                 return res
@@ -551,16 +568,14 @@ class MPT:
         return res
 
 
-def loop_body_entry(body, bb):
-    """If `bb` lies in a loop driven by Iterator::next, return the block entered for
-    Some(item) of the innermost such loop; else None."""
-    # find next() calls whose Some-arm reaches bb and from bb the next() block is reachable again
+def loop_info(body, bb):
+    """If `bb` lies in a loop driven by Iterator::next: (block entered for Some(item), block of the
+    next() call) of the innermost such loop; else None."""
     best = None
     for c in body.calls():
         if not any(glob_match('<* as std::iter::traits::iterator::Iterator>::next', n) or n == 'std::iter::traits::iterator::Iterator::next'
                    for n in c.names()):
             continue
-        # the switch on the Option result
         some_targets = []
         d = c.dest[0]
         for (bi, si, how, payload) in body.uses(d):
@@ -571,12 +586,16 @@ def loop_body_entry(body, bb):
                         su, fa = switch_edges(b2, pay2[0], 'option', +1)
                         some_targets.extend(b for _, b in su)
         for st in some_targets:
-            r = body.reach([st])
+            r = body.reach([st], stop={c.bb})
             if bb in r and c.bb in body.reach([bb]):
-                # innermost: smallest reach set
-                if best is None or len(r) < best[1]:
-                    best = (st, len(r))
-    return best[0] if best else None
+                if best is None or len(r) < best[2]:
+                    best = (st, c.bb, len(r))
+    return (best[0], best[1]) if best else None
+
+
+def loop_body_entry(body, bb):
+    li = loop_info(body, bb)
+    return li[0] if li else None
 
 
 # ---------------------------------------------------------------- R3 who-may
